@@ -21,7 +21,8 @@ import (
 )
 
 type SrvCfg struct {
-	Transport string              `json:"transport"` // tcp (no TLS config) | tcp-tls (TLS config present) | inproc
+	CtxErr    bool                `json:"ctxErr,omitempty"` // callback errors wrap a context error (a backend call of the application that ran out of time), although the server's own context is alive
+	Transport string              `json:"transport"`        // tcp (no TLS config) | tcp-tls (TLS config present) | inproc
 	Comp      []string            `json:"comp"`
 	Enc       []string            `json:"enc"`
 	Schemes   []string            `json:"schemes"`
@@ -195,6 +196,9 @@ func (l *cbLog) callbacks(cfg *SrvCfg, transportOf func() lime.Transport) (
 		case "roundtrip":
 			return &lime.AuthenticationResult{Role: lime.DomainRoleUnknown, RoundTrip: &lime.PlainAuthentication{Password: fmt.Sprintf("challenge-%d", round)}}, nil
 		case "error":
+			if cfg.CtxErr {
+				return nil, fmt.Errorf("authentication backend: %w", context.DeadlineExceeded)
+			}
 			return nil, errors.New("authentication backend unavailable")
 		}
 		return lime.UnknownAuthenticationResult(), nil
@@ -206,6 +210,9 @@ func (l *cbLog) callbacks(cfg *SrvCfg, transportOf func() lime.Transport) (
 			return assignedNode, nil
 		case "error":
 			l.add(CBEntry{Call: "register", Candidate: NodeText(cand), Result: "error"})
+			if cfg.CtxErr {
+				return lime.Node{}, fmt.Errorf("registry lookup: %w", context.Canceled)
+			}
 			return lime.Node{}, errors.New("registration refused")
 		}
 		l.add(CBEntry{Call: "register", Candidate: NodeText(cand), Node: NodeText(cand)})
